@@ -159,8 +159,10 @@ func (sc *Scheduler) Schedule(ctx context.Context, g *ExecutionGraph, done chan 
 					_ = sc.teardownNode(node)
 				}()
 
+				executed := false
 			ExecRepeat:
 				for setupSucceed && !sc.isCanceled() {
+					executed = true
 					execErr := sc.execNode(ctx, node)
 					if execErr != nil {
 						status := node.State().Status
@@ -220,6 +222,11 @@ func (sc *Scheduler) Schedule(ctx context.Context, g *ExecutionGraph, done chan 
 					break ExecRepeat
 				}
 				// finish the node
+				if !executed && setupSucceed && node.State().Status == NodeStatusRunning {
+					// The run was stopped after this step had been launched but
+					// before its command was started: it did not run.
+					node.setStatus(NodeStatusCancel)
+				}
 				if node.State().Status == NodeStatusRunning {
 					node.setStatus(NodeStatusSuccess)
 				}
